@@ -51,7 +51,7 @@ const RUNTIME_ITEMS: [(&'static str, &'static str); 4] = [
     ("P", "function(a){return typeof a==='function'?a:()=>{}}"),
 ];
 
-const EXTRA_RUNTIME_ITEMS: [(&'static str, &'static str); 2] = [
+const EXTRA_RUNTIME_ITEMS: [(&'static str, &'static str); 3] = [
     (
         "a",
         "function(a){for(var i=0;i<a.length;i++)if(a[i])return a}",
@@ -59,6 +59,10 @@ const EXTRA_RUNTIME_ITEMS: [(&'static str, &'static str); 2] = [
     (
         "b",
         "function(b){var a=Object.values(b);for(var i=0;i<a.length;i++)if(a[i])return b}",
+    ),
+    (
+        "c",
+        "function(a){var b={};for(var k in a)b[k]=true;return b}",
     ),
 ];
 
